@@ -204,8 +204,13 @@ def probe_shapes(r, d, counter):
         return f'probe({counter[0]})'
     if d <= 0 or r.random() < 0.25:
         return leaf()
-    k = r.randrange(23)
+    k = r.randrange(25)
     E = lambda: probe_shapes(r, d - 1, counter)
+    if k in (23, 24):
+        # the SAME effectful expression as condition and as branch (a parser that folds `a if a else b` into `a or b`
+        # evaluates it once)
+        x = E()
+        return f'({x} if {x} else {E()})' if k == 23 else f'({E()} if {x} else {x})'
     if k == 18:
         op = r.choice(['and', 'or'])
         return f'({E()} {op} {E()} {op} {E()}' + (f' {op} {E()})' if r.random() < 0.4 else ')')
